@@ -365,3 +365,111 @@ class CallGraph:
                     prev[c] = f
                     q.append(c)
         return None
+
+
+# ------------------------------------------------------------ guards (T2) ----
+
+def bool_source(cfg, local, _depth=0):
+    """Trace a boolean local backwards through copies and `!` to what produced it.
+    Returns (source, negated) with source one of
+      ('call', callee, bb) ('field', of, name, base_local) ('bin', op, stmt) ('discr', adt, place) ('unknown',)"""
+    neg = False
+    seen = set()
+    while local not in seen and _depth < 50:
+        seen.add(local)
+        ds = cfg.defs().get(local, [])
+        # ignore storage of constants when there is exactly one interesting def
+        if len(ds) != 1:
+            if 1 <= local <= cfg.mir["argc"]:
+                return (("param", local), neg)
+            return (("multi", local, len(ds)), neg)
+        d = ds[0]
+        if d[0] == "call":
+            return (("call", cfg.callee(d[3]), d[1], d[3]), neg)
+        s = d[3]
+        r = s.get("r")
+        if r == "Use":
+            p = op_place(s["x"])
+            if p is None:
+                return (("const", op_const(s["x"]).get("v")), neg)
+            projs = _place_proj(p)
+            fields = [x for x in projs if isinstance(x, dict) and "f" in x]
+            if fields:
+                fl = fields[-1]
+                return (("field", fl["of"], fl["f"], _place_local(p)), neg)
+            local = _place_local(p)
+            continue
+        if r == "Un" and s["op"] == "Not":
+            p = op_place(s["x"])
+            if p is None:
+                return (("unknown",), neg)
+            neg = not neg
+            projs = _place_proj(p)
+            fields = [x for x in projs if isinstance(x, dict) and "f" in x]
+            if fields:
+                fl = fields[-1]
+                return (("field", fl["of"], fl["f"], _place_local(p)), neg)
+            local = _place_local(p)
+            continue
+        if r == "Bin":
+            return (("bin", s["op"], s), neg)
+        if r == "Discr":
+            return (("discr", s.get("adt"), s["p"]), neg)
+        return (("unknown", r), neg)
+    return (("unknown",), neg)
+
+
+def bool_switches(cfg):
+    """[(bb, local, true_target, false_target)] for every two-way switch on a bool."""
+    out = []
+    for i, b in enumerate(cfg.blocks):
+        t = b["term"]
+        if t["t"] == "Switch" and t.get("xty") == "bool" and t["vals"] == [0]:
+            p = op_place(t["x"])
+            if p is None or not isinstance(p, int):
+                if p is None:
+                    continue
+                # switch on a field (e.g. copy (*_1).is_const)
+                out.append((i, p, t["to"][1], t["to"][0]))
+                continue
+            out.append((i, p, t["to"][1], t["to"][0]))
+    return out
+
+
+def guard_edges(cfg, pred):
+    """Edges (bb, target) taken when the guard condition `pred(source)` is TRUE, and when FALSE.
+    pred receives the source tuple from bool_source and returns True when it is the guard."""
+    true_edges, false_edges = [], []
+    for bb, p, t_true, t_false in bool_switches(cfg):
+        if isinstance(p, int):
+            src, neg = bool_source(cfg, p)
+        else:
+            fields = [x for x in _place_proj(p) if isinstance(x, dict) and "f" in x]
+            if not fields:
+                continue
+            src, neg = ("field", fields[-1]["of"], fields[-1]["f"], _place_local(p)), False
+        if pred(src):
+            if neg:
+                t_true, t_false = t_false, t_true
+            true_edges.append((bb, t_true))
+            false_edges.append((bb, t_false))
+    return true_edges, false_edges
+
+
+def dominated_by_guard(cfg, target_bb, pred, want=True):
+    """Every path entry -> target_bb takes an edge on which guard `pred` has value `want`.
+    Returns (ok, n_guards)."""
+    te, fe = guard_edges(cfg, pred)
+    edges = te if want else fe
+    if not edges:
+        return False, 0
+    reach = cfg.reachable_from(0, avoid_edges=edges)
+    return (target_bb not in reach), len(edges)
+
+
+def is_call_result(suffix):
+    return lambda src: src[0] == "call" and (src[1] or "").endswith(suffix)
+
+
+def is_field(name, owner_suffix=None):
+    return lambda src: src[0] == "field" and src[2] == name and (owner_suffix is None or src[1].endswith(owner_suffix))
